@@ -33,6 +33,8 @@ import (
 	"veriftool/instr"
 )
 
+const recycleEvery = 200
+
 const (
 	repoDir   = "/repo"
 	modPath   = "github.com/EdgeCast/vflow"
@@ -90,6 +92,7 @@ func init() {
 	props["C09"].Level = "fault_enumeration"
 	props["C11"].Level = "fault_enumeration"
 	props["C10"].Race, props["C10"].RaceShare = true, 50
+	props["C12"].Race, props["C12"].RaceShare = true, 25
 	props["C15"].Race, props["C15"].RaceShare = true, 35
 }
 
@@ -282,6 +285,7 @@ type Job struct {
 	NWorkers  int            `json:"nworkers"`
 	BudgetSec int            `json:"budget_sec"`
 	MaxRuns   int            `json:"max_runs"`
+	RunOffset int            `json:"run_offset"`
 	Out       string         `json:"out"`
 	Replay    string         `json:"replay,omitempty"`
 	Minimise  bool           `json:"minimise,omitempty"`
@@ -396,8 +400,8 @@ func runWorker(bin string, job *Job, dir string, memLimitMB int, timeout time.Du
 		wr.Signal = "supervisor-timeout"
 	}
 	wr.Output = buf.String()
-	if len(wr.Output) > 20000 {
-		wr.Output = wr.Output[len(wr.Output)-20000:]
+	if len(wr.Output) > 24000 {
+		wr.Output = wr.Output[:6000] + "\n[...]\n" + wr.Output[len(wr.Output)-16000:]
 	}
 	if b, err := os.ReadFile(job.Out); err == nil {
 		wr.Raw = b
@@ -429,7 +433,7 @@ type Result struct {
 	ProjDistinct  []uint64                 `json:"proj_distinct"`
 	StateDistinct []uint64                 `json:"state_distinct"`
 	Inconclusive  map[string]int           `json:"inconclusive"`
-	Violations    []map[string]interface{} `json:"violations"`
+	Violations    []json.RawMessage        `json:"violations"`
 	Known         map[string]int           `json:"known"`
 	KnownText     map[string]string        `json:"known_text"`
 	Samples       []interface{}            `json:"samples"`
@@ -502,22 +506,46 @@ func cmdCheck(id, tier string) int {
 		}
 	}
 	var wg sync.WaitGroup
-	results := make([]*workerRes, W)
-	jobs := make([]*Job, W)
+	var mu sync.Mutex
+	var results []*workerRes
+	deadline := time.Now().Add(time.Duration(budget) * time.Second)
 	for i := 0; i < W; i++ {
 		bin := bo.Bin
 		if i < raceW {
 			bin = bo.RaceBin
 		}
-		job := &Job{Prop: id, Tier: tier, Seed: seed, Worker: i, NWorkers: W, BudgetSec: budget, Minimise: true, MinBudget: 20, Known: known}
-		if tier == "thorough" {
-			job.MinBudget = 120
-		}
-		jobs[i] = job
 		wg.Add(1)
 		go func(i int, bin string) {
 			defer wg.Done()
-			results[i] = runWorker(bin, job, bo.Scratch, 6000, time.Duration(budget+job.MinBudget*3)*time.Second)
+			// worker processes are recycled every few hundred runs so that
+			// goroutines abandoned at the end of simulated incarnations cannot
+			// accumulate (DESIGN.md 3.8)
+			offset := 0
+			for {
+				left := int(time.Until(deadline).Seconds())
+				if left < 1 && offset > 0 {
+					return
+				}
+				if left < 1 {
+					left = 1
+				}
+				job := &Job{Prop: id, Tier: tier, Seed: seed, Worker: i, NWorkers: W, BudgetSec: left, MaxRuns: recycleEvery, RunOffset: offset, Minimise: true, MinBudget: 20, Known: known}
+				if tier == "thorough" {
+					job.MinBudget = 120
+				}
+				wr := runWorker(bin, job, bo.Scratch, 6000, time.Duration(left+job.MinBudget*3)*time.Second)
+				mu.Lock()
+				results = append(results, wr)
+				mu.Unlock()
+				var r Result
+				if wr.Raw != nil {
+					json.Unmarshal(wr.Raw, &r)
+				}
+				if wr.Raw == nil || r.Runs < recycleEvery || len(r.Violations) > 0 || r.Error != "" {
+					return
+				}
+				offset += r.Runs
+			}
 		}(i, bin)
 	}
 	wg.Wait()
@@ -549,7 +577,7 @@ func aggregate(id, tier string, seed int64, pc *PropCfg, bo *buildOut, results [
 			if wr.Hang != "" {
 				msg += "\n" + firstLines(wr.Hang, 40)
 			} else {
-				msg += "\n" + tailStr(wr.Output, 3000)
+				msg += "\n" + firstLines(wr.Output, 30)
 			}
 			if v := deathViolation(id, wr); v != nil {
 				viols = append(viols, v)
@@ -606,7 +634,15 @@ func aggregate(id, tier string, seed int64, pc *PropCfg, bo *buildOut, results [
 		if len(tot.Samples) < 3 {
 			tot.Samples = append(tot.Samples, r.Samples...)
 		}
-		viols = append(viols, r.Violations...)
+		for _, raw := range r.Violations {
+			// numbers are kept exact (json.Number): plans carry 64-bit values
+			dec := json.NewDecoder(bytes.NewReader(raw))
+			dec.UseNumber()
+			var m map[string]interface{}
+			if dec.Decode(&m) == nil {
+				viols = append(viols, m)
+			}
+		}
 	}
 	// harness panics are infrastructure trouble, never violations
 	var real []map[string]interface{}
@@ -633,9 +669,6 @@ func aggregate(id, tier string, seed int64, pc *PropCfg, bo *buildOut, results [
 		vv, _ := v["violation"].(map[string]interface{})
 		class := fmt.Sprint(vv["class"])
 		seedStr := fmt.Sprint(v["seed"])
-		if f, ok := v["seed"].(float64); ok {
-			seedStr = strconv.FormatInt(int64(f), 10)
-		}
 		name := fmt.Sprintf("%s-%s-%s.json", id, sanitize(class), seedStr)
 		path := filepath.Join(dir, name)
 		b, _ := json.MarshalIndent(v, "", " ")
@@ -749,8 +782,10 @@ func annotate(v map[string]interface{}, rep *instr.Report) {
 	used := map[int]bool{}
 	for _, st := range tr {
 		if m, ok := st.(map[string]interface{}); ok {
-			if f, ok := m["site"].(float64); ok && f > 0 {
-				used[int(f)] = true
+			if n, ok := m["site"].(json.Number); ok {
+				if f, err := n.Int64(); err == nil && f > 0 {
+					used[int(f)] = true
+				}
 			}
 		}
 	}
@@ -802,24 +837,24 @@ func confirmReplay(bo *buildOut, path, id, class string) (bool, string) {
 		bin = bo.RaceBin
 	}
 	wr := runWorker(bin, job, bo.Scratch, 6000, 120*time.Second)
-	if class == "hang" {
-		if wr.Hang != "" {
+	if class == "hang" || class == "out-of-memory" || class == "fatal-error" {
+		// resource exhaustion / fatal runtime error inside a decode step: the
+		// replay must kill the fresh process as well (watchdog, RLIMIT_AS or
+		// the runtime's fatal error); which of the three it is may differ
+		// with machine load
+		if wr.Hang != "" || (wr.ExitCode != 0 && wr.Raw == nil) {
 			return true, ""
 		}
-		return false, fmt.Sprintf("no hang on replay (exit %d)", wr.ExitCode)
-	}
-	if class == "out-of-memory" || class == "fatal-error" {
-		if wr.ExitCode != 0 && (strings.Contains(wr.Output, "out of memory") || strings.Contains(wr.Output, "fatal error") || strings.Contains(wr.Output, "cannot allocate")) {
-			return true, ""
-		}
-		return false, fmt.Sprintf("process survived the replay (exit %d)", wr.ExitCode)
+		return false, fmt.Sprintf("the process survived the replay (exit %d)", wr.ExitCode)
 	}
 	if wr.Raw == nil {
 		return false, fmt.Sprintf("no output (exit %d): %s", wr.ExitCode, tailStr(wr.Output, 800))
 	}
 	var r Result
 	json.Unmarshal(wr.Raw, &r)
-	for _, v := range r.Violations {
+	for _, raw := range r.Violations {
+		var v map[string]interface{}
+		json.Unmarshal(raw, &v)
 		vv, _ := v["violation"].(map[string]interface{})
 		if vv != nil && fmt.Sprint(vv["class"]) == class {
 			return true, ""
